@@ -175,3 +175,21 @@ func VerifC05RecordDenialProof(c *Cache, proof *dns.Msg, zone string, nsec3 bool
 	}
 	return c.store.RecordDenialProof(proof, zone, kind, time.Time{})
 }
+
+// VerifC05SuffixWalks lists, in visiting order, the zones the three ancestor
+// walks of the failure / denial state hand their visitor for one name: the
+// byte path's walkWireSuffixes over the wire name, and the decoded path's
+// walkFailureZones and denialProofAncestors over the presentation name.
+func VerifC05SuffixWalks(wireName []byte, presentation string) (wireWalk [][]byte, failureZones, denialZones []string) {
+	walkWireSuffixes(wireName, func(zone []byte) bool {
+		wireWalk = append(wireWalk, append([]byte(nil), zone...))
+		return true
+	})
+	walkFailureZones(presentation, func(zone string) bool {
+		failureZones = append(failureZones, zone)
+		return true
+	})
+	var buf [12]string
+	denialZones = append(denialZones, denialProofAncestors(dns.CanonicalName(presentation), buf[:0])...)
+	return
+}
